@@ -39,7 +39,7 @@ CLAIMED = {
     "C09": ("4 C09", "abstract interpretation of the six sibling step-cost functions into cost signatures compared with "
             "the objectives' definitions and with the name dispatch; CFG/guard analysis of the DP (memo overwrite "
             "guard and tuple layout, sieve skip, early exits, outer-product flag); partial evaluation of the "
-            "bipartition range expressions; must-pass-through of the cap widening; option integrity (no re-binding of the objective / outer-product option, unchanged hand-over to delegates); provenance of the batch-index test (carriers vs appearance table); integrity of the network handed to the processor; evaluation of the step-cost functions over a bounded family against the objectives' definitions (shared with C18, DESIGN E9)"),
+            "bipartition range expressions; must-pass-through of the cap widening; option integrity (no re-binding of the objective / outer-product option, unchanged hand-over to delegates); provenance of the batch-index test (carriers vs appearance table); integrity of the network handed to the processor; evaluation of the step-cost functions over a bounded family against the objectives' definitions (shared with C18, DESIGN E9); evaluation of the dynamic programme itself on a bounded family of networks against an exhaustive enumeration of all binary trees (DESIGN E9)"),
     "C10": ("4 C10", "typestate of the depth-first traversal's ready set and guard of its yield; sibling cross-check of the "
             "recycled-id protocol (descending removal, positions before removal, append) over every pop/append loop; "
             "CFG pairing of single-assignment id counters with their uses; linear-form check of get_ssa_path's id"
